@@ -106,6 +106,7 @@ type Fake struct {
 	leader    int
 	logStart  int64
 	logEnd    int64
+	times     [][2]int64 // (timestamp ms, offset) in offset order: ListOffsets with a real timestamp answers the first offset whose timestamp is >= it
 	lso       int64 // last stable offset reported by data answers when below the high watermark; -1: = high watermark
 	gen       int
 	conns     map[int]*sconn
@@ -157,6 +158,9 @@ func (f *Fake) SetLeader(id int)        { f.mu.Lock(); f.leader = id; f.mu.Unloc
 func (f *Fake) Leader() int             { f.mu.Lock(); defer f.mu.Unlock(); return f.leader }
 func (f *Fake) SetLog(start, end int64) { f.mu.Lock(); f.logStart, f.logEnd = start, end; f.mu.Unlock() }
 func (f *Fake) FailNextDials(n int)     { f.mu.Lock(); f.failDials = n; f.mu.Unlock() }
+
+// SetTimes: the timestamp index used to answer ListOffsets requests that carry a real timestamp.
+func (f *Fake) SetTimes(t [][2]int64) { f.mu.Lock(); f.times = t; f.mu.Unlock() }
 
 // SetLSO: an open transaction on the partition: data answers (fetch v4+) report this last stable
 // offset when it is below their high watermark (-1: none, last stable offset = high watermark).
@@ -374,8 +378,16 @@ func (sc *sconn) handle(req []byte) {
 		switch ts {
 		case -2:
 			off = f.logStart
-		default: // -1 (and, not used here, real timestamps) -> log end
+		case -1:
 			off = f.logEnd
+		default: // a real timestamp: the first offset whose timestamp is at or after it, else the log end
+			off = f.logEnd
+			for _, to := range f.times {
+				if to[0] >= ts {
+					off = to[1]
+					break
+				}
+			}
 		}
 		sc.lo = append(sc.lo, off)
 		f.record(sc, Event{Kind: EvListOffsets, A: ts, B: off})
